@@ -581,6 +581,7 @@ func checkCompositeKey(c *Ctx, p *Prog, S *stateRoles, rule string) {
 func checkFreshDecodeTargets(c *Ctx, p *Prog, S *stateRoles, rule string) {
 	n := 0
 	for _, f := range []*ssa.Function{S.apply, S.applyChange, S.appCh} {
+		ord := 0
 		for _, b := range f.Blocks {
 			for _, in := range b.Instrs {
 				call, ok := in.(*ssa.Call)
@@ -588,6 +589,7 @@ func checkFreshDecodeTargets(c *Ctx, p *Prog, S *stateRoles, rule string) {
 					continue
 				}
 				n++
+				ord++
 				al, isAlloc := stripConv(call.Common().Args[1]).(*ssa.Alloc)
 				fresh := isAlloc && al.Parent() == f
 				if fresh {
@@ -598,7 +600,7 @@ func checkFreshDecodeTargets(c *Ctx, p *Prog, S *stateRoles, rule string) {
 						}
 					}
 				}
-				c.Check(fresh, rule, FuncDisplay(f)+"/decode-target@"+p.Pos(in.Pos()), p.Pos(in.Pos()), "decodes into a zero value allocated by this call", "a message is decoded into a value that is not a fresh zero value (taken from the store, a pool or an earlier iteration): fields absent from the JSON keep stale contents, and a half-decoded bad value can damage an entity already stored")
+				c.Check(fresh, rule, fmt.Sprintf("%s/decode-target#%d", FuncDisplay(f), ord), p.Pos(in.Pos()), "decodes into a zero value allocated by this call", "a message is decoded into a value that is not a fresh zero value (taken from the store, a pool or an earlier iteration): fields absent from the JSON keep stale contents, and a half-decoded bad value can damage an entity already stored")
 			}
 		}
 	}
@@ -841,6 +843,23 @@ func checkConstructors(c *Ctx, p *Prog, rule string) {
 			if tn, fld, _, ok := fieldOfAddr(st.Addr); ok && tn == "Headers" {
 				got["Headers."+fld] = append(got["Headers."+fld], flow.Origins(st.Val)...)
 			}
+		}
+	}
+	// encode/decode symmetry: the materializer decodes through *T (json.Unmarshal(data, &v)),
+	// so the constructor must encode through *T as well — marshalling the dereferenced
+	// value bypasses a MarshalJSON/MarshalText declared on the pointer receiver
+	nm := 0
+	for _, b := range f.Blocks {
+		for _, in := range b.Instrs {
+			call, ok := in.(*ssa.Call)
+			if !ok || calleeName(call.Common()) != "encoding/json.Marshal" || len(call.Common().Args) != 1 {
+				continue
+			}
+			nm++
+			arg := stripConv(call.Common().Args[0])
+			_, isPtr := arg.Type().Underlying().(*types.Pointer)
+			_, isParam := arg.(*ssa.Parameter)
+			c.Check(isPtr && isParam, rule, fmt.Sprintf("constructor/marshal#%d/through-the-pointer-argument", nm), p.Pos(in.Pos()), "json.Marshal(the *T argument)", "the entity is marshalled as "+describeValue(arg)+" rather than through the *T argument: an entity type whose MarshalJSON/MarshalText has a pointer receiver is written with the default encoding while the materializer decodes it with its UnmarshalJSON — the value does not survive the round trip")
 		}
 	}
 	c.Check(hasOrigin(got["Value"], "call:encoding/json.Marshal#0") && len(got["Value"]) == 1, rule, "constructor/value-is-marshalled-argument", p.Pos(f.Pos()), "Value ← json.Marshal(value)", fmt.Sprintf("the message's value is not exactly json.Marshal of the entity (origins %v)", got["Value"]))
